@@ -196,10 +196,12 @@ def run_case(
                     from . import sched
 
                     env.park = ctl.park
+                    env.trace = ctl.trace
                     try:
                         result = sched.run_controlled(lambda: _after(prelude, lambda: AsyncRunner(cache=cache).run(g, vals, **kwargs)), ctl)
                     finally:
                         env.park = None
+                        env.trace = None
                     coro = None
                 else:
                     coro = _after(prelude, lambda: AsyncRunner(cache=cache).run(g, vals, **kwargs))
@@ -339,10 +341,12 @@ def map_case(
                     from . import sched
 
                     env.park = ctl.park
+                    env.trace = ctl.trace
                     try:
                         results = sched.run_controlled(lambda: _after(prelude, lambda: AsyncRunner().map(g, vals, **kwargs)), ctl)
                     finally:
                         env.park = None
+                        env.trace = None
                 else:
                     results = asyncio.run(_after(prelude, lambda: AsyncRunner().map(g, vals, **kwargs)))
             obs["results"] = [canon_result(r, env) for r in results]
